@@ -622,3 +622,14 @@ Proof.
   vm_compute in E. injection E as <- <-.
   split; [reflexivity|]. split; [exact P|]. split; reflexivity.
 Qed.
+
+(* restatements used by Properties_C02.v *)
+Lemma l_realised_view v o v' e : lvalid v -> lstep v o = Some (v', e) ->
+  Conn_Proofs.Inv (wit v (wit_pending o)) /\ cview (wit v (wit_pending o)) = v /\
+  exists cm' ev, Conn_Model.step (wit v (wit_pending o)) (wit_op o) = Ok (cm', ev) /\ cview cm' = v' /\ levs ev = e.
+Proof. intros Hv Hs. destruct (l_realised v o v' e Hv Hs) as [A B]. split; [exact A|]. split; [apply cview_wit|exact B]. Qed.
+
+Lemma projx_def c x : projx c x =
+  match x with OUp _ c' => if c' =? c then [LUp] else [] | ODown _ c' => if c' =? c then [LDown] else []
+             | OMsg _ c' => if c' =? c then [LMsg] else [] | ODtor _ _ _ => [] end.
+Proof. reflexivity. Qed.
